@@ -93,11 +93,22 @@ def _sb_case(arg):
         if method == "max":
             # magnitudes beyond 2^53 (v - 1 == v): fill values "below the minimum" collide with the minimum
             variants.append(("huge", False, False))
+        else:
+            # one candidate carries almost all of the weight (the others have normalised weights of 1e-6): a
+            # sampling scheme must still never return a NaN / zero-weight position in their place
+            variants.append(("skewed", False, False))
         for vname, lo, hi in variants:
             u = ab.concretise_ranks(ranks, lo_inf=lo, hi_inf=hi,
                                     rng=rng if vname == "random-floats" else None,
                                     near=(vname == "near-ties"),
                                     scale=1e300 if vname == "huge" else None).reshape(shape)
+            if vname == "skewed":
+                flat = np.array(u, dtype=float).ravel()
+                pos = np.where(flat > 0)[0]
+                if len(pos) < 2:
+                    continue
+                flat[pos[int(rng.integers(len(pos)))]] *= 1e6
+                u = flat.reshape(shape)
             nonnan = [v for v in ranks if v != ab.NAN]
             n_tied = sum(1 for v in nonnan if v == max(nonnan)) if nonnan else 0
             # enough seeds that a tied optimum is missed with probability < e^-32
